@@ -166,6 +166,10 @@ def run(ctx: Ctx) -> int:
 
         def expr_tainted(e: ast.AST, local_taint: Set[str]) -> bool:
             if isinstance(e, ast.Call) and call_leaf(e) == "del_clash_mark":
+                # it strips ONE leading mark: applied to a concatenation `prefix + "." + k` it leaves k's mark in place
+                a0 = e.args[0] if e.args else None
+                if isinstance(a0, (ast.BinOp, ast.JoinedStr)):
+                    return any(expr_tainted(x, local_taint) for x in ast.walk(a0) if isinstance(x, ast.Name))
                 return False
             if isinstance(e, ast.Name):
                 return e.id in local_taint
@@ -375,6 +379,16 @@ def run(ctx: Ctx) -> int:
         for c in vcalls:
             ok = len(c.args) == 1 and isinstance(c.args[0], ast.Name) and c.args[0].id in stored
             ctx.oblige("C05.h", ok, c, "the object validated (and completed with schema defaults) is the object stored" if ok else f"`{src(c, 60)}` validates a copy / derived object: the schema defaults are filled into it and thrown away, so a value that arrives already loaded (config, object) lacks the defaults that the same value given as text (argv, environment) gets", fn=fn_)
+
+    # ---------------- C05.i: 'key+' appends are adapted under the parser's load mode on every channel -----------------
+    aap5 = ctx.func("_typehints:ActionTypeHint.apply_appends")
+    from .util import enclosing_withs
+
+    ct5 = [c for c in calls_in(aap5) if call_leaf(c) in ("_check_type_", "_check_type")]
+    ctx.need(ct5, "apply_appends: action._check_type_(...)")
+    for c in ct5:
+        ok = any(isinstance(it.context_expr, ast.Call) and call_leaf(it.context_expr) == "parser_context" and any(k.arg == "load_value_mode" for k in it.context_expr.keywords) for _, it in enclosing_withs(c, stop=aap5))
+        ctx.oblige("C05.i", ok, c, "an appended value is adapted inside parser_context(load_value_mode=parser.parser_mode)" if ok else "an appended value is adapted without a load mode in context: `tags+: extra` through parse_string / parse_object raises an internal error (or is read under another parser's mode) while --tags+=extra on the command line works", fn=aap5)
 
     # ---------------- C05.g: the omegaconf loader returns every YAML scalar as the yaml loader does -------------
     gol = ctx.func("_optionals:get_omegaconf_loader")
